@@ -89,6 +89,7 @@ pub struct Ctx {
     pub p: Partial,
     skip: BTreeMap<u64, String>,
     progress: Option<std::fs::File>,
+    detail_path: Option<PathBuf>,
     pub replay: Option<Value>,
 }
 
@@ -117,6 +118,12 @@ impl Ctx {
         }
         CASE_STARTED_MS.store(now_ms(), Ordering::SeqCst);
         true
+    }
+    /// Remember what the running case is, so that the parent can report it if the worker dies.
+    pub fn case_detail(&mut self, v: &Value) {
+        if let Some(p) = &self.detail_path {
+            let _ = std::fs::write(p, serde_json::to_string(v).unwrap_or_default());
+        }
     }
     pub fn end_case(&mut self) {
         CASE_STARTED_MS.store(0, Ordering::SeqCst);
@@ -257,6 +264,7 @@ pub fn worker_main(def: &CheckDef, args: &[String]) -> i32 {
         p: Partial::default(),
         skip,
         progress,
+        detail_path: Some(out.with_extension("detail")),
         replay: None,
     };
     start_watchdog();
@@ -308,7 +316,7 @@ pub fn run_check(def: &CheckDef, tier: Tier, seed: u64) -> i32 {
     let _ = std::fs::remove_dir_all(&base);
     std::fs::create_dir_all(&base).unwrap();
     let mut merged = Partial::default();
-    let mut crashed: Vec<(usize, u64, String)> = vec![];
+    let mut crashed: Vec<(usize, u64, String, Value)> = vec![];
     // spawn all shards
     let mut skips: Vec<BTreeMap<u64, String>> = vec![BTreeMap::new(); n];
     let mut pending: Vec<usize> = (0..n).collect();
@@ -346,7 +354,8 @@ pub fn run_check(def: &CheckDef, tier: Tier, seed: u64) -> i32 {
                 match prog {
                     Some(idx) if rounds < 40 && !skips[i].contains_key(&idx) => {
                         skips[i].insert(idx, why.clone());
-                        crashed.push((i, idx, why));
+                        let detail = std::fs::read_to_string(out.with_extension("detail")).ok().and_then(|s| serde_json::from_str::<Value>(&s).ok()).unwrap_or(Value::Null);
+                        crashed.push((i, idx, why, detail));
                         next.push(i);
                     }
                     _ => merged.machinery_errors.push(format!("shard {} died ({}) without usable progress", i, why)),
@@ -356,12 +365,12 @@ pub fn run_check(def: &CheckDef, tier: Tier, seed: u64) -> i32 {
         pending = next;
     }
     let _ = std::fs::remove_dir_all(&base);
-    for (shard, idx, why) in &crashed {
+    for (shard, idx, why, detail) in &crashed {
         match def.crash_class {
             Some(cls) => merged.violations.push(Viol {
                 class: format!("{}-{}", cls, if why == "hang" { "hang" } else { "crash" }),
                 summary: format!("case #{} of shard {} made the worker die: {}", idx, shard, why),
-                case: json!({"case_index": idx, "shard": shard, "of": n, "tier": tier.name(), "how": why}),
+                case: if detail.is_null() { json!({"case_index": idx, "shard": shard, "of": n, "tier": tier.name(), "how": why}) } else { detail.clone() },
             }),
             None => merged.machinery_errors.push(format!("case #{} of shard {} killed the worker ({})", idx, shard, why)),
         }
@@ -495,6 +504,7 @@ pub fn replay(def: &CheckDef, path: &Path) -> i32 {
         p: Partial::default(),
         skip: BTreeMap::new(),
         progress: None,
+        detail_path: None,
         replay: Some(body["case"].clone()),
     };
     (def.run)(&mut ctx);
